@@ -93,6 +93,8 @@ def verify(contract, callee_contracts=None, spec_functions=None, options=None):
     absfun_factory(ex)
     ex.spec_functions = spec_functions or {}
     ex.current_fn = contract.qualname
+    fd = S.foreign_decorators(fn)
+    if fd: raise BindingError("%s is wrapped by the decorator %s: what runs is the wrapper, not the body the obligations would be generated from" % (contract.qualname, ", ".join(fd)))
     ex._loop_index = index_loops(fn)
     n_loops = len(ex._loop_index)
     if contract.n_loops is not None and n_loops != contract.n_loops and not any(getattr(ls, "match", None) for ls in contract.loops.values()):
